@@ -261,7 +261,7 @@ def hyp_run(rec, sub, strategy, check, max_examples, shrink=None, nsteps=None):
     holder = {}
 
     def body(case):
-        fails = check(case)
+        fails = run_check_fn(check, case)
         unknown = rec.filter_known(fails) if fails else []
         if unknown:
             holder["case"], holder["fails"] = case, unknown
@@ -291,6 +291,43 @@ def hyp_run(rec, sub, strategy, check, max_examples, shrink=None, nsteps=None):
             return False
         raise
     return True
+
+
+def _in_code_under_test(e):
+    """True when the traceback of e passes through the ImageD11 package (shadow or repo)."""
+    marks = [os.environ.get("VERIF_SHADOW") or "\0", os.environ.get("VERIF_REPO") or "\0"]
+    for fr in traceback.extract_tb(e.__traceback__):
+        fn = fr.filename
+        if any(fn.startswith(m) for m in marks) or (os.sep + "ImageD11" + os.sep) in fn:
+            return True
+    return False
+
+
+def run_check_fn(check, case):
+    """Run a property's check; an exception that escapes from inside the code under test on a
+    well-formed call is a failure of the property, one raised by the harness itself is a harness error."""
+    try:
+        return check(case)
+    except (Violation, HarnessError, KeyboardInterrupt, MemoryError):
+        raise
+    except Exception as e:   # noqa
+        if _in_code_under_test(e):
+            return [exc_failure("unguarded call", e)]
+        raise
+
+
+def run_cases(rec, sub, cases, check, stop_after=3):
+    """Deterministic (enumerated / pinned) cases: same failure protocol as hyp_run."""
+    nv = 0
+    for case in cases:
+        fails = run_check_fn(check, case)
+        unknown = rec.filter_known(fails) if fails else []
+        if unknown:
+            rec.violation(sub, case, unknown)
+            nv += 1
+            if nv >= stop_after:
+                break
+    return nv == 0
 
 
 def guard(fn, *a, **k):
@@ -437,7 +474,18 @@ def run_check(pid, tier):
     except build.BuildError as e:
         print("HARNESS-ERROR: build failed\n%s" % e)
         return 2
-    procs = []
+    # numba-compiled modules: compile once (cached) before the shards start
+    warm = mod_spec.get("warmup")
+    if warm:
+        env = dict(envs[flavours[0]])
+        env["VERIF_TMP"] = rundir
+        p = subprocess.run([sys.executable, "-c", "import importlib\nfor m in %r:\n    "
+                            "importlib.import_module(m)\nimport vf.props.%s as P\n"
+                            "getattr(P, 'warmup', lambda: None)()" % (list(warm), pid.lower())],
+                           env=env, cwd=rundir, stdout=subprocess.PIPE, stderr=subprocess.STDOUT)
+        if p.returncode != 0:
+            print("HARNESS-ERROR: warm-up import failed\n%s" % p.stdout.decode(errors="replace")[-3000:])
+            return 2
     maxpar = int(os.environ.get("VERIF_JOBS", "16"))
     pending = list(range(nsh))
     running = []
@@ -562,7 +610,8 @@ def _static_spec(pid):
     mod = importlib.import_module("vf.props.%s" % pid.lower())
     return dict(rule=mod.RULE, assumptions=list(mod.ASSUMPTIONS),
                 flavours=mod.shard_layout,
-                exhaustive_note=getattr(mod, "EXHAUSTIVE", None))
+                exhaustive_note=getattr(mod, "EXHAUSTIVE", None),
+                warmup=getattr(mod, "WARMUP", None))
 
 
 def run_replay(pid, path):
